@@ -398,7 +398,14 @@ class Check:
     def resolve_breaks_without_input(self):
         """called after the search-on-break: every break that did not lead to a concrete failing input
         is still reported, naming what no longer checks"""
-        if self.breaks and not any(not v["no_input"] for v in self.violations):
+        # a violation that matches a listed KNOWN finding explains nothing new: it must not hide a broken proof / correspondence
+        known = []
+        kf_path = os.path.join(VERIF, "known_findings.json")
+        if os.path.exists(kf_path):
+            known = [k.get("match", {}) for k in json.load(open(kf_path)) if k.get("property") == self.pid and k.get("status") == "known"]
+        def is_known(v):
+            return any(m and all(v["key"].get(a) == b for a, b in m.items()) for m in known)
+        if self.breaks and not any((not v["no_input"]) and not is_known(v) for v in self.violations):
             self.violation("broken without a failing input: " + " || ".join(b[:1500] for b in self.breaks),
                            {"no_longer_checks": self.breaks}, key={"kind": "break"}, no_input=True)
 
